@@ -614,10 +614,18 @@ func ruleStaleness(r *Run, rule string) {
 			if e.Kind != EvRange || !e.Taken {
 				continue
 			}
+			// iterations of the loop over the walk (an inner loop, e.g. over the attempts of an action, belongs to the iteration)
+			if rs, isR := e.Clause.(*ast.RangeStmt); isR {
+				if c, isC := ast.Unparen(rs.X).(*ast.CallExpr); !isC {
+					continue
+				} else if f, ok := calleeFunc(fl.Info, c); !ok || FuncKey(f) != "workflow/utils/walk.Plan" {
+					continue
+				}
+			}
 			sawS, sawE := false, false
 			end := false
 			for x := j + 1; x < len(p.Ev) && !end; x++ {
-				if p.Ev[x].Kind == EvRange {
+				if p.Ev[x].Kind == EvRange && p.Ev[x].Clause == e.Clause {
 					end = true
 					break
 				}
@@ -640,6 +648,36 @@ func ruleStaleness(r *Run, rule string) {
 		bad = "lastUpdate does not take both State.Start and State.End into account (Start=" + boolStr(fields["Start"]) + " End=" + boolStr(fields["End"]) + ")"
 	}
 	r.Check(rule, "lastUpdate:max-over-all-objects", lu.Decl.Pos(), bad == "", "%s", orOK(bad, "maximum of Start and End over every walked object"))
+
+	// D45: the attempts of an action are recorded activity too — an action that is being retried does not change its own
+	// state, so a live plan in a long retry loop was judged stale. lastUpdate ranges over the Attempts of the actions and
+	// compares both the Start and the End of an attempt with the running maximum.
+	luInfo := lu.Pkg.TypesInfo
+	attStart, attEnd := false, false
+	ast.Inspect(lu.Decl.Body, func(x ast.Node) bool {
+		rs, ok := x.(*ast.RangeStmt)
+		if !ok {
+			return true
+		}
+		if _, m := FieldPath(luInfo, rs.X, "workflow.Action", "Attempts"); !m {
+			return true
+		}
+		// both times of the attempt are read in the loop (compared in place, or handed to a helper that takes the maximum)
+		ast.Inspect(rs.Body, func(y ast.Node) bool {
+			if s2, ok := y.(*ast.SelectorExpr); ok && IsLoopElem(luInfo, rs, s2.X) {
+				switch s2.Sel.Name {
+				case "Start":
+					attStart = true
+				case "End":
+					attEnd = true
+				}
+			}
+			return true
+		})
+		return true
+	})
+	r.Check(rule, "lastUpdate:counts-attempts", lu.Decl.Pos(), attStart && attEnd,
+		"lastUpdate does not take the attempts of the actions into account (attempt Start compared=%s, End compared=%s): an action that is being retried records its activity only there, so a live plan with a long retry loop is closed as Failed/ExceedRecovery at start-up", boolStr(attStart), boolStr(attEnd))
 }
 
 func ruleAgedOut(r *Run, rule string) {
